@@ -30,4 +30,14 @@ for cont in small4.CONTS:
     for (tag, m, il, ml) in bad[:30]:
         print("PARSE", tag, "| impl:", il.strip()[:120], "| model:", ml[:120], "| len", len(m))
     print(cont.name, dict(wstats), dict(rstats), "corr=%d pred=%d known=%d parse-bad=%d" % (len(corr), len(pred), len(known), len(bad)))
+if not only or "sds" in only:
+    small4.run_sds(ctx)
+    corr, pred, bad, qbad, stats = ctx._sds_debug
+    for (j, name, diffs) in corr[:8]:
+        print("CORR", name, "; ".join(diffs)[:600])
+    for (j, name, probs) in pred[:8]:
+        print("PRED", name, "; ".join(probs)[:600])
+    for (tag, m, il, ml) in bad[:30]:
+        print("PARSE", tag, "| impl:", il.strip()[:120], "| model:", ml[:120], "| len", len(m))
+    print("sds", stats, "corr=%d pred=%d parse-bad=%d qbad=%s" % (len(corr), len(pred), len(bad), qbad[:3]))
 print("wall=%.1fs" % (time.time() - t0))
